@@ -252,7 +252,7 @@ PRIMS = {
     # selection / reductions
     'min', 'max', 'fmin', 'fmax', 'sum', 'any', 'all',
     # lists and tuples
-    'len', 'range', 'zip', 'enumerate', 'fst', 'snd',
+    'len', 'size', 'dim', 'range', 'zip', 'enumerate', 'fst', 'snd',
     # literals
     'rational', 'digits', 'hexfloat',
 }
@@ -1059,6 +1059,23 @@ class Program:
         if name == 'len':
             arity(1)
             return X.fin(len(lst(args[0], name)))
+        if name == 'size':
+            # fp.size(xs, k): exact integer count along dimension k; only k = 0 is modelled
+            arity(2)
+            xs = lst(args[0], name)
+            if as_int(num(args[1], name), 'size dimension') != 0:
+                raise Unspecified('size along an inner dimension')
+            return X.fin(len(xs))
+        if name == 'dim':
+            # fp.dim(xs): exact count of nesting levels (of a non-ragged, non-empty tensor)
+            arity(1)
+            x, d = lst(args[0], name), 0
+            while isinstance(x, list):
+                d += 1
+                if len(x) == 0:
+                    raise Unspecified('dim of a tensor with an empty level')
+                x = x[0]
+            return X.fin(d)
         if name == 'range':
             if n not in (1, 2, 3):
                 raise Unspecified('range arity')
